@@ -211,6 +211,28 @@ def size_unknown(c):
     c.holds('original_dimension_query_unchanged_at_the_end', dim_query(orig) == q0, note=f"{dim_query(orig)} vs {q0}")
 
 
+def problem_sample_prior(c):
+    """BayesianProblem.sample_prior for a prior without a direct sampler (falls back to MCMC on a problem with a constant likelihood):
+    the ORIGINAL problem keeps its likelihood, model, data and posterior (bounded stand-in: native run of the real samplers)"""
+    from cuqi.problem import BayesianProblem
+    from cuqi.distribution import LMRF
+    rng = np.random.default_rng(int(c.real('seed', lo=0, hi=10 ** 6)))
+    n = 4; A = rng.standard_normal((n, n)); data = rng.standard_normal(n)
+    x = LMRF(0, 0.5, geometry=n, name='x'); y = Gaussian(LinearModel(A), 0.3, name='y')
+    BP = BayesianProblem(y, x).set_data(y=data)
+    lik0 = BP.likelihood; post0 = BP.posterior; xp = rng.standard_normal(n)
+    v0 = float(np.ravel(BP.posterior.logd(xp))[0]); l0 = float(np.ravel(BP.likelihood.logd(xp))[0])
+    import io, contextlib
+    np.random.seed(3)
+    with contextlib.redirect_stdout(io.StringIO()), contextlib.redirect_stderr(io.StringIO()):
+        S = BP.sample_prior(6)
+    c.holds('prior_samples_returned', S.samples.shape[0] == n)
+    c.holds('original_problem_keeps_its_likelihood_object', BP.likelihood is lik0)
+    c.holds('original_problem_keeps_its_data', np.array_equal(np.asarray(BP.data, dtype=float), data))
+    c.eq('original_likelihood_evaluates_as_before', float(np.ravel(BP.likelihood.logd(xp))[0]), l0, tol=1e-12)
+    c.eq('original_posterior_evaluates_as_before', float(np.ravel(BP.posterior.logd(xp))[0]), v0, tol=1e-12)
+
+
 def model_application(c, n=2):
     A = c.mat('A', n, n); model = LinearModel(A)
     x = Gaussian(c.vec('m', n), c.vec('v', n, pos=True), name='z')
@@ -273,6 +295,7 @@ def jobs(tier):
     for fam in ('Gaussian', 'Lognormal', 'Lognormal:model'):
         J.append(Job(f'siblings:partially_coinciding_values:{fam}', lambda c, f=fam: siblings(c, f), 'Pbox', FL + ['cuqi.distribution._lognormal:Lognormal._normal'], maxpaths=512, timeout=600, rtol=1e-6))
     J.append(Job('siblings:size_known_only_after_conditioning', size_unknown, 'Pbox', FL + ['cuqi.distribution._distribution:Distribution.dim'], rtol=1e-6))
+    J.append(Job('frame:BayesianProblem.sample_prior_leaves_the_problem_unchanged', problem_sample_prior, 'B', ['cuqi.problem._problem:BayesianProblem.sample_prior'], nnum=1))
     J.append(Job('frame:model_application_and_reconditioning', model_application, 'Pbox', FL))
     J.append(Job('frame:shared_geometry_object', shared_geometry, 'Pbox', ['cuqi.distribution._distribution:Distribution.geometry']))
     J.append(Job('history:thousand_reconditionings_and_sampler_run', lambda c: gibbs_reconditioning(c, 300 if tier == 'quick' else 3000), 'B', FL, nnum=2))
